@@ -699,13 +699,15 @@ theorem scaling_equal_quotient_one (m1 m2 : Nat) (e1 e2 : Int) (z1 z2 : VelaVeri
   rw [hq]
   exact div_self (ne_of_gt hpos)
 
-/-- `check_quantized_tens_scaling_equal`: both tensors have an integral type and a quantisation with scale and
-    zero point, and `is_scaling_equal` holds. -/
+/-- `check_quantized_tens_scaling_equal`: both tensors carry a quantisation with scale and zero point, and
+    `is_scaling_equal` holds.  (The data-type test of `is_quantized` holds for every type, see
+    `ScalingEqual.intTypeTest`; the tensor-level verdict is therefore never "equal" for quantisations that
+    `is_scaling_equal` separates.) -/
 theorem check_tens_scaling_equal_iff (a b : Tens) :
     checkQuantizedTensScalingEqual a b = true ↔
-      ∃ qa qb, a.quant = some qa ∧ b.quant = some qb ∧ a.isInt = true ∧ b.isInt = true ∧
+      ∃ qa qb, a.quant = some qa ∧ b.quant = some qb ∧
         qa.isValid = true ∧ qb.isValid = true ∧ isScalingEqual qa (some qb) = true := by
-  unfold checkQuantizedTensScalingEqual Tens.isQuantized
+  unfold checkQuantizedTensScalingEqual Tens.isQuantized intTypeTest
   cases ha : a.quant <;> cases hb : b.quant <;> simp [Bool.and_eq_true]
   tauto
 
